@@ -97,6 +97,43 @@ Definition pos_of (c : text) (pos : option N) : nat :=
    Props.C19_reverse_blocksize_independent covers it) *)
 Definition bs_nat (c : text) (bs : N) : nat := N.to_nat (N.min bs (N.of_nat (S (length c)))).
 
+(* the Spec part of [holds] for one observed run of the reverse reader *)
+Definition rev_spec_ok (m : fmode) (pre : text) (v : res (list text)) : bool :=
+  match m with
+  | Binary | TextLatin1 =>        (* latin-1: the text's code points are the byte values *)
+      negb (no_lone_cr pre) || lres_eqb v (Ok (reverse_lines_spec pre))
+  | TextUtf8 =>
+      match utf8_decode pre with
+      | Some t => negb (no_lone_cr t) || lres_eqb v (Ok (reverse_lines_spec t))
+      | None => true              (* not a text: outside the property's domain *)
+      end
+  end.
+
+(* same objects, reversed, whenever no error ends either iteration *)
+Definition jsonl_mirrored (ie : bool) (fwd rev_ : res (list jval * bool)) : bool :=
+  match fwd, rev_ with
+  | Ok (fo, false), Ok (ro, false) => list_eqb jval_eqb ro (rev fo)
+  | Ok (_, fe), Ok (_, re_) => negb ie && (fe || re_)
+  | _, _ => false
+  end.
+
+Definition jsonl_spec_on (loads : text -> option jval) (ws : N -> bool) (ie : bool) (t : text)
+  (fwd rev_ : res (list jval * bool)) : bool :=
+  negb (no_lone_cr t)
+  || (jres_eqb fwd (Ok (jsonl_forward_spec loads ws ie t))
+      && jres_eqb rev_ (Ok (jsonl_reverse_spec loads ws ie t))
+      && jsonl_mirrored ie fwd rev_).
+
+Definition jsonl_spec_ok (m : fmode) (ie : bool) (c : text) (fwd rev_ : res (list jval * bool)) : bool :=
+  match m with
+  | Binary => jsonl_spec_on (loads_bytes mini_loads) is_ws_bytes ie c fwd rev_
+  | TextUtf8 => match utf8_decode c with
+                | Some t => jsonl_spec_on mini_loads is_ws_str ie t fwd rev_
+                | None => true
+                end
+  | TextLatin1 => jsonl_spec_on mini_loads is_ws_str ie c fwd rev_
+  end.
+
 Definition c19_verdict (k : c19_case) : verdict :=
   match k with
   | CSplit rt robs rpy =>
@@ -118,24 +155,12 @@ Definition c19_verdict (k : c19_case) : verdict :=
       let c := expand rc in
       let p := pos_of c pos in
       let pre := firstn p c in
-      let runs := map (fun '(bs, o) => (bs_nat c bs, xres o)) rruns in
-      let agree := forallb (fun '(bs, o) => lres_eqb (reverse_iter_lines m c bs p) o) runs in
-      let same := all_same (map snd runs) && forallb (fun '(bs, _) => (1 <=? bs)%nat) runs in
-      let spec_ok :=
-        match m with
-        | Binary =>
-            negb (no_lone_cr pre)
-            || forallb (fun '(_, o) => lres_eqb o (Ok (reverse_lines_spec pre))) runs
-        | TextUtf8 =>
-            match utf8_decode pre with
-            | Some t => negb (no_lone_cr t)
-                        || forallb (fun '(_, o) => lres_eqb o (Ok (reverse_lines_spec t))) runs
-            | None => true          (* not a text: outside the property's domain *)
-            end
-        | TextLatin1 =>             (* the text's code points are the byte values *)
-            negb (no_lone_cr pre)
-            || forallb (fun '(_, o) => lres_eqb o (Ok (reverse_lines_spec pre))) runs
-        end in
+      let runs := map (fun r => (bs_nat c (fst r), xres (snd r))) rruns in
+      let agree := forallb (fun r => lres_eqb (reverse_iter_lines m c (fst r) p) (snd r)) runs in
+      (* identically for every block size >= 1 ... *)
+      let same := all_same (map snd runs) && forallb (fun r => (1 <=? fst r)%nat) runs in
+      (* ... and, inside the domain, the Spec's lines *)
+      let spec_ok := forallb (fun r => rev_spec_ok m pre (snd r)) runs in
       (agree, same && spec_ok && negb (is_nil runs), false)
   | CJsonl rc m ie rfwd rrev =>
       let c := expand rc in
@@ -145,34 +170,7 @@ Definition c19_verdict (k : c19_case) : verdict :=
       let agree := inside
                    && jres_eqb (jsonl_iter mini_loads m ie false c) fwd
                    && jres_eqb (jsonl_iter mini_loads m ie true c) rev_ in
-      let mirrored :=      (* same objects, reversed, whenever no error ends either iteration *)
-        match fwd, rev_ with
-        | Ok (fo, false), Ok (ro, false) => list_eqb jval_eqb ro (rev fo)
-        | Ok (_, fe), Ok (_, re_) => negb ie && (fe || re_)
-        | _, _ => false
-        end in
-      let spec_ok :=
-        match m with
-        | Binary =>
-            negb (no_lone_cr c)
-            || (jres_eqb fwd (Ok (jsonl_forward_spec (loads_bytes mini_loads) is_ws_bytes ie c))
-                && jres_eqb rev_ (Ok (jsonl_reverse_spec (loads_bytes mini_loads) is_ws_bytes ie c))
-                && mirrored)
-        | TextUtf8 =>
-            match utf8_decode c with
-            | Some t => negb (no_lone_cr t)
-                        || (jres_eqb fwd (Ok (jsonl_forward_spec mini_loads is_ws_str ie t))
-                            && jres_eqb rev_ (Ok (jsonl_reverse_spec mini_loads is_ws_str ie t))
-                            && mirrored)
-            | None => true
-            end
-        | TextLatin1 =>
-            negb (no_lone_cr c)
-            || (jres_eqb fwd (Ok (jsonl_forward_spec mini_loads is_ws_str ie c))
-                && jres_eqb rev_ (Ok (jsonl_reverse_spec mini_loads is_ws_str ie c))
-                && mirrored)
-        end in
-      (agree, inside && spec_ok, false)
+      (agree, inside && jsonl_spec_ok m ie c fwd rev_, false)
   end.
 
 (* what the model computes, for replay files *)
